@@ -2,12 +2,16 @@
 
 Correspondence: `Sidecar(io.StringIO(json.dumps(j))).validate(schema)` and `SidecarValidator(schema).validate(Sidecar(..))`
 against `SidecarV.validate Guards.fixed` on (i) every JSON document of a small universe to depth 3 at the top level, at
-the entry position and at two-column positions of a sidecar skeleton, (ii) well-typed generated sidecars with one
-injected fault of each kind.  What the HED *string* layer says (basic/full string checks, definition extraction,
-`replace_ref(.., "n/a")`) is recorded from the real run and handed to the model as its oracle, so the model covers
-exactly the sidecar layer.  Unit correspondences: `_find_non_matching_braces`, the reference regex, `str.replace`,
-`_detect_column_type`.  Direct oracle: never raises; well-formed => no error; fault k => error with the code of k
-(codes read from hed/errors/error_messages.py by `extract_codes`).
+the entry position and at two-column positions of a sidecar skeleton, (ii) entry strings on which text and parse tree differ
+(unbalanced parentheses, `{#}`, Def-expand groups holding `#`, references spliced as n/a, declared definitions) in seven
+sidecar skeletons, (iii) well-typed generated sidecars with one injected fault of each kind.  What the HED *string* layer says
+(basic/full string checks, definition extraction, which tag resolves to Def-expand) is recorded from the real run and handed
+to the model as its oracle, so the model covers exactly the sidecar layer; the `#` count on the tree after
+remove_refs/shrink_defs and `replace_ref` (both branches) are computed by the model.  Unit correspondences:
+`_find_non_matching_braces`, the reference regex, `str.replace`, `df_util.replace_ref`, the `#` count of
+`_validate_pound_sign_count` (and whether `shrink_defs` raises), `_detect_column_type`.  Direct oracle: never raises;
+well-formed => no error; fault k => error with the code of k (codes read from hed/errors/error_messages.py by `extract_codes`).
+A closed mode (string validation by the C01 model inside Lean) is run at the end: harness/props/closed_c08.py.
 """
 import ast
 import io
@@ -24,6 +28,10 @@ THEOREMS = [
     "HedVerif.C08.unfixed_raises_list_top",
     "HedVerif.C08.unfixed_raises_string_top",
     "HedVerif.C08.unfixed_raises_unknown_ref",
+    "HedVerif.C08.unfixed_raises_two_def_expand",
+    "HedVerif.C08.poundOf_eq",
+    "HedVerif.C08.treeHash_unbalanced",
+    "HedVerif.C08.fault_pound_unbalanced",
     "HedVerif.C08.braces_iff",
     "HedVerif.C08.wellformed_ok",
     "HedVerif.C08.fault_top_level",
@@ -175,7 +183,7 @@ EXTRACT = [extract_codes]
 
 # ------------------------------------------------------------------------------------------ instrumentation
 
-REC = {"basic": {}, "full": {}, "repna": {}}
+REC = {"basic": {}, "full": {}}
 
 
 def install_recorders():
@@ -183,7 +191,6 @@ def install_recorders():
     issue, and record what the string layer answered for each string the sidecar validator handed to it."""
     from hed.errors.error_reporter import ErrorHandler
     from hed.validator.hed_validator import HedValidator
-    from hed.models import df_util
     if getattr(ErrorHandler, "_verif_c08", False):
         return
     if not getattr(ErrorHandler, "_verif_wrapped", False):
@@ -196,7 +203,7 @@ def install_recorders():
             return r
         ErrorHandler.format_error = staticmethod(fe)
         ErrorHandler._verif_wrapped = True
-    ob, of, orr = HedValidator.run_basic_checks, HedValidator.run_full_string_checks, df_util.replace_ref
+    ob, of = HedValidator.run_basic_checks, HedValidator.run_full_string_checks
 
     def basic(self, hed_string, allow_placeholders):
         r = ob(self, hed_string, allow_placeholders)
@@ -208,14 +215,8 @@ def install_recorders():
         REC["full"][hed_string._hed_string] = [[i["code"], i["severity"]] for i in r]
         return r
 
-    def rep(text, oldvalue, newvalue="n/a"):
-        r = orr(text, oldvalue, newvalue)
-        if newvalue == "n/a":
-            REC["repna"][(text, oldvalue)] = r
-        return r
     HedValidator.run_basic_checks = basic
     HedValidator.run_full_string_checks = full
-    df_util.replace_ref = rep
     ErrorHandler._verif_c08 = True
 
 
@@ -271,11 +272,14 @@ def observe(doc, schema):
         direct = {"raise": type(e).__name__, "msg": str(e)[:120]}
     out["direct_same"] = (direct.get("ok") == out.get("ok") and direct.get("raise") == out.get("raise"))
     oracle = {"basic": [[s, v] for s, v in REC["basic"].items()], "full": [[s, v] for s, v in REC["full"].items()],
-              "repna": [[t, o[1:-1], r] for (t, o), r in REC["repna"].items()], "defs": [], "defissues": []}
+              "defs": [], "defissues": [], "defexpand": []}
+    dx = set()
+    for s in REC["basic"]:
+        h = HedString(s, schema)
+        oracle["defs"].append([s, len(h.find_tags({DefTagNames.DEFINITION_KEY}, recursive=True, include_groups=0))])
+        dx.update(def_expand_texts(h))
+    oracle["defexpand"] = sorted(dx)
     if "ok" in out and sc is not None:
-        for s in REC["basic"]:
-            n = len(HedString(s, schema).find_tags({DefTagNames.DEFINITION_KEY}, recursive=True, include_groups=0))
-            oracle["defs"].append([s, n])
         try:
             di = list(sc._extract_definition_issues) + list(sc.get_def_dict(schema).issues)
             oracle["defissues"] = [[i.get("_kind") if i.get("_kind") in SIDECAR_KINDS else "", i["code"], i["severity"],
@@ -283,6 +287,13 @@ def observe(doc, schema):
         except Exception:
             pass
     return out, oracle
+
+
+def def_expand_texts(h):
+    """source texts of the tags of a HedString that resolve to Def-expand (what `find_tags({"Def-expand"})` matches)"""
+    from hed.models.model_constants import DefTagNames
+    key = DefTagNames.DEF_EXPAND_KEY.casefold()
+    return {t.org_tag for t in h.get_all_tags() if t.short_base_tag.casefold() == key}
 
 
 def enc(j):
@@ -335,6 +346,33 @@ def universe(depth):
 
 
 SIBLING = {"HED": {"go": "Blue", "stop": "({a}, Green)"}}
+
+
+# entry strings on which the text and the tree disagree about `#`, references that are spliced as n/a, definitions
+ENTRIES = ["(Label/#", "Label/#)", "(Red", "Red)", "((Label/#)", "{#}", "{a#}, Label/#", "{b}", "({b})", "({b}), Label/#",
+           "{b}, {b}", "(Def-expand/A/#, (Label/#))", "((Def-expand/A/#, (Label/#)), Red)",
+           "(Def-expand/A, (Def-expand/B/#, (Label/#)))", "(Def-expand/A/#, Def-expand/B/#)", "((Def-expand/A, Def-expand/B), Red)",
+           "Def-expand/A/#", "(Def-expand/Abc/#, (Label/#))", "(Def-expand/Abc/#, (Label/#)), Label/#", "Def/Abc/#",
+           "(Def/Abc/#, Label/#)", "(Label/#, ({b}))", "Label/# , ( Red , {b} )", "(Definition/Q/#, (Label/#))",
+           "(Definition/Q, (Red)), Label/#", "Label/##", "#", "(#)", "n/a", "{HED}", "({HED}), Label/#", "Red, {HED}",
+           "(Red, {HED}, Blue)", "{HED}, {b}", "Label/#, {b}", "Square, ({b}, {HED})", ""]
+CAT_B = {"HED": {"x": "Blue", "y": "Green"}}
+NA_B = {"HED": {"x": "n/a", "y": "Blue"}}
+DEFS = {"HED": {"d": "(Definition/Abc/#, (Label/#))"}}
+
+
+def entry_documents(ctx):
+    """each entry string as a value template and as a category entry, alone, next to a referenced column, next to a
+    column with an n/a entry, and in a sidecar that declares the definition it uses"""
+    ents = list(ENTRIES)
+    if not ctx.quick():
+        ents += [s + ", " + t for s in ENTRIES[:24] for t in ENTRIES[:24]]
+    docs = []
+    for s in ents:
+        docs += [{"a": {"HED": s}}, {"a": {"HED": s}, "b": CAT_B}, {"a": {"HED": {"k": s}}, "b": CAT_B},
+                 {"a": {"HED": {"k": s, "m": "Square"}}, "b": {"HED": "ID/#"}}, {"a": {"HED": {"k": s}}, "b": NA_B},
+                 {"defs": DEFS, "a": {"HED": s}, "b": CAT_B}, {"defs": DEFS, "a": {"HED": {"k": s, "m": "Square"}}}]
+    return docs
 
 
 def documents(ctx):
@@ -480,6 +518,14 @@ def faults(doc, roles, rng):
         d = cp()
         d[n]["HED"] = s + ", Item-count/#"
         out.append(("value-with-two-pounds", d, "INVALID_POUND_SIGNS_VALUE", n))
+        d = cp()
+        d[n]["HED"] = "(" + s           # no tree, so no `#` is counted: flagged besides the parentheses error
+        out.append(("value-with-unbalanced-parentheses", d, "INVALID_POUND_SIGNS_VALUE", n))
+        d = cp()
+        d[n]["HED"] = s.replace("#", "{#}") if "/#" not in s else s.replace("Label/#", "{#}").replace("ID/#", "{#}")
+        if "#" in d[n]["HED"].replace("{#}", ""):
+            d[n]["HED"] = "{#}"
+        out.append(("value-whose-only-pound-is-in-a-reference-tag", d, "INVALID_POUND_SIGNS_VALUE", n))
     for n in hedcols[:3]:
         k, s = rng.choice(hed_strings(doc, n))
         for bad in (s + ", {b", "}, " + s, s + ", {{b}}", s + ", {b}}"):
@@ -510,9 +556,11 @@ def faults(doc, roles, rng):
 
 # ------------------------------------------------------------------------------------------ checks
 
-RAISE_FAMILY = [("top-level-not-object", lambda d: not isinstance(d, dict)),
-                ("column-entry-not-object", lambda d: any(not isinstance(v, dict) for v in d.values())),
-                ("reference-to-missing-column", lambda d: True)]
+RAISE_FAMILY = [("two-def-expand-in-group", lambda d, o: o["raise"] == "KeyError" and "not found in the group" in o.get("msg", "")),
+                ("top-level-not-object", lambda d, o: not isinstance(d, dict)),
+                ("column-entry-not-object", lambda d, o: any(not isinstance(v, dict) for v in d.values())),
+                ("reference-to-missing-column", lambda d, o: o["raise"] == "KeyError"),
+                ("other", lambda d, o: True)]
 
 
 def check_docs(ctx, docs, schema, table, expect=None):
@@ -528,7 +576,7 @@ def check_docs(ctx, docs, schema, table, expect=None):
         ctx.case(("doc", json.dumps(d)), nontrivial=isinstance(d, dict) and len(d) > 0,
                  sample={"doc": d} if strings >= 2 and len(json.dumps(d)) < 160 and idx % 97 == 0 else None)
         if "raise" in out:
-            fam = next(name for name, p in RAISE_FAMILY if p(d))
+            fam = next(name for name, p in RAISE_FAMILY if p(d, out))
             ctx.count("impl-raises:" + out["raise"])
             ctx.violation("never-raises:" + fam, {"doc": d}, f"{out['raise']}: {out.get('msg', '')}",
                           signature="C08-raises-" + fam)
@@ -572,6 +620,88 @@ def _walk_strings(j):
             yield from _walk_strings(x)
 
 
+def check_replace_ref(ctx):
+    """`SidecarV.replaceRef` (= `Assemble.replaceRef`) against `df_util.replace_ref`, both branches"""
+    from hed.models import df_util
+    rng = ctx.rng
+    parts = ["{a}", "{a}", "{b}", ",", ", ", " ", "(", ")", "Red", "Blue", "(Red, {a})", "({a})", "{a},", ",{a}", "n/a", "#"]
+    values = ["n/a", "", "Red", "Red, Blue", "(Red)", "{a}", "n/a ", "N/A"]
+    texts = ["".join(p) for n in range(1, 4) for p in itertools.product(["{a}", ",", " ", "(", ")", "X"], repeat=n)]
+    texts += ["".join(rng.choice(parts) for _ in range(rng.randint(1, 7))) for _ in range(1500 if ctx.quick() else 15000)]
+    reqs = [{"op": "c08.replaceref", "text": t, "ref": "a", "value": rng.choice(values)} for t in texts]
+    for r, a in zip(reqs, ctx.model.batch(reqs)):
+        ctx.case(("rr", r["text"], r["value"]), nontrivial="{a}" in r["text"])
+        try:
+            want = df_util.replace_ref(r["text"], "{a}", r["value"])
+        except Exception as ex:
+            ctx.violation("never-raises:replace_ref", {"text": r["text"], "value": r["value"]}, f"{type(ex).__name__}: {ex}")
+            continue
+        ctx.count("replace_ref:" + ("removed" if r["value"] in ("", "n/a") else "replaced"))
+        if a["out"] != want:
+            ctx.disagree("SidecarV.replaceRef = df_util.replace_ref", {"text": r["text"], "value": r["value"]}, a["out"], want)
+
+
+TREE_PARTS = ["(", ")", "(", ")", ",", ", ", " ", "#", "{a}", "{#}", "{a#}", "Red", "Label/#", "Def-expand/A/#", "Def-expand/B",
+              "Def/A/#", "ID/#"]
+SHRINK = {}
+
+
+def shrink_defs_guarded(schema):
+    """does the tree under test carry the `shrink_defs` guard (fixes/C08_shrink_defs_twice.diff)?"""
+    from hed import HedString
+    if "fixed" not in SHRINK:
+        try:
+            HedString("(Def-expand/A, Def-expand/B)", schema).shrink_defs()
+            SHRINK["fixed"] = True
+        except KeyError:
+            SHRINK["fixed"] = False
+    return SHRINK["fixed"]
+
+
+def impl_tree_hash(s, schema):
+    """what `_validate_pound_sign_count` counts for the entry text `s`: (count | None, raised)"""
+    import copy
+    from hed import HedString
+    h = HedString(s, schema)
+    h.remove_refs()
+    c = copy.deepcopy(h)
+    c.remove_definitions()
+    try:
+        c.shrink_defs()
+    except KeyError:
+        return None, True
+    return str(c).count("#"), False
+
+
+def check_tree_hash(ctx):
+    """`SidecarV.treeHash` / `twiceList` against HedString + remove_refs + remove_definitions + shrink_defs + str"""
+    from hed import HedString, load_schema_version
+    schema = load_schema_version("8.3.0")
+    rng = ctx.rng
+    strs = list(ENTRIES) + ["".join(p) for n in range(1, 4) for p in itertools.product(["(", ")", ",", "L/#", "{a}"], repeat=n)]
+    strs += ["".join(rng.choice(TREE_PARTS) for _ in range(rng.randint(1, 8))) for _ in range(1500 if ctx.quick() else 15000)]
+    guarded = shrink_defs_guarded(schema)
+    reqs = []
+    for s in strs:
+        reqs.append({"op": "c08.treehash", "s": s, "defexpand": sorted(def_expand_texts(HedString(s, schema)))})
+    for s, a in zip(strs, ctx.model.batch(reqs)):
+        if HedString(s, schema).find_tags({"Definition"}, recursive=True, include_groups=0):
+            ctx.count("treehash:skipped-entry-with-definition")     # the validator does not count `#` in such entries
+            continue
+        ctx.case(("th", s), nontrivial="#" in s)
+        n, raised = impl_tree_hash(s, schema)
+        if raised:
+            ctx.count("treehash:shrink_defs-raises")
+            ctx.violation("never-raises:two-def-expand-in-group", {"entry": s}, "KeyError in HedString.shrink_defs",
+                          signature="C08-raises-two-def-expand-in-group")
+        if raised != (a["twice"] and not guarded):
+            ctx.disagree("SidecarV.twiceList = shrink_defs raises", {"entry": s}, a["twice"], raised)
+        if not raised:
+            ctx.count("treehash:" + ("same-as-text" if n == s.count("#") else "differs-from-text"))
+            if a["hash"] != n:
+                ctx.disagree("SidecarV.treeHash = str(tree after remove_refs/shrink_defs).count('#')", {"entry": s}, a["hash"], n)
+
+
 def check_units(ctx):
     """braces / reference regex / str.replace / column kind against the real functions"""
     import re
@@ -598,6 +728,8 @@ def check_units(ctx):
         balanced = len(bs) % 2 == 0 and all(c == "{}"[i % 2] for i, c in enumerate(bs))
         if (b == []) != balanced:
             ctx.violation("braces-flagged-iff-unbalanced", {"s": s}, {"impl": b, "balanced": balanced})
+    check_replace_ref(ctx)
+    check_tree_hash(ctx)
     ents = universe(3)
     reqs = [{"op": "c08.kind", "entry": enc(e)} for e in ents]
     for e, a in zip(ents, ctx.model.batch(reqs)):
@@ -619,7 +751,8 @@ def run(ctx):
     install_recorders()
     schema = load_schema_version("8.3.0")
     table = tables()
-    ctx.extra["rule"] = ("(i) every JSON value of the universe (12 atoms incl. null/true/0/3/''/'{a}'/[]/{}; singleton lists; "
+    ctx.extra["rule"] = ("(0) entry strings whose text and parse tree differ (unbalanced, {#}, Def-expand with #, n/a splices, "
+                         "definitions) in 7 skeletons; (i) every JSON value of the universe (12 atoms incl. null/true/0/3/''/'{a}'/[]/{}; singleton lists; "
                          "objects over keys HED/x/n-a; depth 3) at the top level, as a column entry, next to a referencing "
                          "column, and pairs of depth-2 values as two columns; (ii) generated well-formed sidecars (value, "
                          "categorical, ignored, definition, referencing columns) and each of them with one injected "
@@ -630,7 +763,7 @@ def run(ctx):
               {"a": {"HED": {"x": "Red, {HED}", "y": "({HED}), Blue"}}},
               {"a": {"HED": {"d": "(Definition/Abc, (Red))", "e": "Blue"}}},
               {"a": {"HED": "{a}"}}, {"a": {"HED": "{b}, {b}, Label/#"}, "b": {"HED": {"x": "Red", "y": "Blue"}}}]
-    docs = corpus + documents(ctx)
+    docs = corpus + entry_documents(ctx) + documents(ctx)
     for lo in range(0, len(docs), 3000):
         check_docs(ctx, docs[lo:lo + 3000], schema, table)
     nbase = 150 if ctx.quick() else 1500
